@@ -447,15 +447,30 @@ def updatePaths : Doc → List String
      | .doc fields => fieldPaths op fields
      | _ => []) ++ updatePaths r
 
-/-- checkPaths' path tree: `seen` are the paths inserted so far; the next path conflicts iff an
-    inserted path is a segment-wise prefix of it (`node.Load() == true`) or it is a segment-wise
-    prefix of / equal to an inserted one (`rest == PathEnd`) — the test of `record`; otherwise it
-    is inserted. -/
+/-- mongokit.isPositional: `$`, `$[]`, `$[identifier]` (anything starting with "$["). -/
+def isPositional (seg : String) : Bool := seg == "$" || seg.startsWith "$["
+
+/-- checkPaths' inner loop over two segment lists: at the FIRST index (within the common length)
+    where the segments differ, is exactly one of the two positional?  No difference within the common
+    length → false. -/
+def positionalClash (p q : Path) : Bool :=
+  match p, q with
+  | [], _ => false
+  | _ :: _, [] => false
+  | a :: p', b :: q' => if a != b then isPositional a != isPositional b else positionalClash p' q'
+
+/-- checkPaths: `seen` are the paths inserted so far (the path tree and the `seen` slice of the Go
+    code hold the same paths; `strings.Split(path, ".")` = `splitPath`, also on "" and trailing
+    dots).  The next path conflicts iff an inserted path is a segment-wise prefix of it
+    (`node.Load() == true`) or it is a segment-wise prefix of / equal to an inserted one
+    (`rest == PathEnd`) — the test of `record`; it is then inserted and compared with every earlier
+    path: a positional segment against a field name / index at the first difference is a conflict. -/
 def pathsConflict (seen : List Path) : List String → Bool
   | [] => false
   | path :: r =>
     let p := splitPath path
     if seen.any (fun rp => isPrefixOf rp p || isPrefixOf p rp) then true
+    else if seen.any (fun rp => positionalClash p rp) then true
     else pathsConflict (seen ++ [p]) r
 
 /-- Apply: returns the updated document and the recorded changes (record order). -/
